@@ -38,7 +38,7 @@ class Contract:
     def __init__(self, fq, *, prop, types=None, result=None, requires=(), ensures=None, raises=None,
                  modifies=(), loops=None, locals=None, calls=None, globals=None, classes=None, ghost=None,
                  covers=None, inline=(), verify=True, trusted=False, note="", self_type=None, xensures=None,
-                 lemmas=(), findings=None, entry=None, pure=False, havoc_result=True, specfuns=None):
+                 lemmas=(), findings=None, entry=None, pure=False, havoc_result=True, specfuns=None, ghost_update=None, ghost_havoc=None):
         self.fq = fq
         self.prop = prop
         self.types = dict(types or {})
@@ -69,7 +69,11 @@ class Contract:
         self.entry = entry          # optional callable(run, frame): extra setup (assumptions / ghost)
         self.pure = pure
         self.havoc_result = havoc_result
-        self.specfuns = dict(specfuns or {})   # name -> callable(run, *Val) -> Val, usable in spec strings
+        self.specfuns = dict(specfuns or {})
+        # ghost transition: callable(SpecCtx) run once on normal exit before the ensures are evaluated (unit) / assumed (call site)
+        self.ghost_update = ghost_update
+        # used at call sites when there is no definitional ghost_update: introduces fresh ghost values
+        self.ghost_havoc = ghost_havoc   # name -> callable(run, *Val) -> Val, usable in spec strings
 
 
 class Registry:
@@ -92,6 +96,10 @@ class Registry:
         self.classes.setdefault(name, {}).update(fields)
         if module:
             self.classes[name]["__module__"] = module
+
+    def inline(self, fq):
+        """Small helper of the repo that is symbolically inlined at call sites instead of having a contract."""
+        self.stubs.setdefault("__inline_ok__", set()).add(fq)
 
     def stub(self, dotted, fn):
         """fn(run, args, kwargs, node) -> value.  An ASSUMED contract on a dependency."""
